@@ -85,6 +85,7 @@ def specList : List (String × SpecFn) := [
   ("Decimal.Cmp", cmpLike cmp),
   ("Decimal.CmpAbs", cmpLike cmpAbs),
   ("Compare", cmpLike compare),
+  ("api.CohortSame", fun _ _ r => some (expectTok (r.getD 0 "") "same")),
   ("api.CmpFlags", fun _ a r => do
       let x ← decDec (a.getD 0 ""); let y ← decDec (a.getD 1 "")
       let fl := fun (c : Int) => [c == -1, c == -1 || c == 0, c == 0, c == 1 || c == 0, c == 1].map boolTok
